@@ -121,18 +121,26 @@ _KERNEL_ALIASES = set()     # local names of the function being normalised that 
 
 
 def find_kernel_aliases(fn):
-    cnt = {}
+    """local names every binding of which is `<something other than self>.<compiled kernel name>` (possibly chosen by a conditional)"""
+    params = {a.arg for a in fn.args.posonlyargs + fn.args.args + fn.args.kwonlyargs}
+    stores = {}
     for n in ast.walk(fn):
         if isinstance(n, ast.Name) and isinstance(n.ctx, (ast.Store, ast.Del)):
-            cnt[n.id] = cnt.get(n.id, 0) + 1
-    params = {a.arg for a in fn.args.posonlyargs + fn.args.args + fn.args.kwonlyargs}
-    out = set()
+            stores[n.id] = stores.get(n.id, 0) + 1
+
+    def kernel_value(v):
+        if isinstance(v, ast.IfExp):
+            return kernel_value(v.body) and kernel_value(v.orelse)
+        return isinstance(v, ast.Attribute) and v.attr in kernel_names() and dotted(v.value) != 'self'
+    good = {}
     for n in ast.walk(fn):
-        if isinstance(n, ast.Assign) and len(n.targets) == 1 and isinstance(n.targets[0], ast.Name) and cnt.get(n.targets[0].id) == 1 \
-                and n.targets[0].id not in params and isinstance(n.value, ast.Attribute) and n.value.attr in kernel_names() \
-                and dotted(n.value.value) != 'self':
-            out.add(n.targets[0].id)
-    return out
+        if isinstance(n, ast.Assign) and len(n.targets) == 1 and isinstance(n.targets[0], ast.Name):
+            nm = n.targets[0].id
+            good.setdefault(nm, [0, True])
+            good[nm][0] += 1
+            if not kernel_value(n.value):
+                good[nm][1] = False
+    return {nm for nm, (cnt, ok) in good.items() if ok and nm not in params and stores.get(nm) == cnt}
 
 
 def state_preserving_call(c):
@@ -500,7 +508,7 @@ class Normalizer:
         fn.body = self.decide(fn.body)
         fn.body = self.under_facts(fn.body, {})
         self.late = True
-        for _ in range(3):
+        for _ in range(6):
             before = dump(fn)
             fn.body = self.block(fn.body)
             fn.body = self.hoist_pass(fn.body)
@@ -606,10 +614,18 @@ class Normalizer:
                     dirty.add('CALL')
         fn.body = keep
 
-    def under_facts(self, stmts, facts):
+    def under_facts(self, stmts, facts, aliases=None):
         """inside `if E == k:` (E pure, not re-bound in the branch) a test `E == k2` is decided"""
         out = []
+        aliases = dict(aliases or {})        # local name -> attribute chain it was bound to (once) with nothing in between that could change the chain
         for st in stmts:
+            if isinstance(st, ast.Assign) and len(st.targets) == 1 and isinstance(st.targets[0], ast.Name) and isinstance(st.value, ast.Attribute) and dotted(st.value) \
+                    and sum(1 for n in ast.walk(self.fn) if isinstance(n, ast.Name) and n.id == st.targets[0].id and isinstance(n.ctx, (ast.Store, ast.Del))) == 1:
+                aliases[st.targets[0].id] = st.value
+            elif aliases and not isinstance(st, ast.If):
+                if any((isinstance(x, ast.Call) and not (is_pure(x) or state_preserving_call(x))) or
+                       (isinstance(x, (ast.Attribute, ast.Subscript)) and isinstance(x.ctx, (ast.Store, ast.Del))) for x in ast.walk(st)):
+                    aliases = {}
             if isinstance(st, ast.If):
                 t = self.decide_test(st.test, facts)
                 ok, val = inline._Fold._const(t)
@@ -626,15 +642,22 @@ class Normalizer:
                     f2['L:' + dump(nt)] = ('lit', False, t)
                     f3['L:' + dump(t)] = ('lit', False, t)
                     f3['L:' + dump(nt)] = ('lit', True, t)
+                if eq_const_static(t) and isinstance(t.left, ast.Name) and t.left.id in aliases:
+                    # v == k with v = obj.attr still current: obj.attr == k as well
+                    f2[dump(aliases[t.left.id])] = ('eq', repr(t.comparators[0].value), aliases[t.left.id])
                 if eq_const_static(t) and is_pure(t.left):
                     f2[dump(t.left)] = ('eq', repr(t.comparators[0].value), t.left)
                     prev = f3.get(dump(t.left))
                     ne = set(prev[1]) if prev and prev[0] == 'ne' else set()
                     if not prev or prev[0] == 'ne':
                         f3[dump(t.left)] = ('ne', frozenset(ne | {repr(t.comparators[0].value)}), t.left)
-                st.body = self.under_facts(st.body, self.kill_facts(st.body, f2)) or [ast.Pass()]
-                st.orelse = self.under_facts(st.orelse, self.kill_facts(st.orelse, f3))
+                # (facts are killed statement by statement inside the branch; nested loops start without facts)
+                st.body = self.under_facts(st.body, f2, aliases) or [ast.Pass()]
+                st.orelse = self.under_facts(st.orelse, f3, aliases)
                 out.append(st)
+                if aliases and any((isinstance(x, ast.Call) and not (is_pure(x) or state_preserving_call(x))) or
+                                   (isinstance(x, (ast.Attribute, ast.Subscript)) and isinstance(x.ctx, (ast.Store, ast.Del))) for x in ast.walk(st)):
+                    aliases = {}
             else:
                 compound = False
                 for f in ('body', 'orelse', 'finalbody'):
@@ -642,6 +665,19 @@ class Normalizer:
                     if isinstance(b, list) and b and isinstance(b[0], ast.stmt) and not isinstance(st, (ast.FunctionDef, ast.ClassDef)):
                         setattr(st, f, self.under_facts(b, {}))
                         compound = True
+                if not compound and facts and any(isinstance(x, ast.Subscript) and isinstance(x.value, ast.Dict) for x in ast.walk(st)):
+                    # {k1: v1, ...}[E] where E == k1 is known here
+                    class TX(ast.NodeTransformer):
+                        def visit_Subscript(self, n):
+                            self.generic_visit(n)
+                            if isinstance(n.ctx, ast.Load) and isinstance(n.value, ast.Dict) and all(isinstance(k, ast.Constant) for k in n.value.keys):
+                                f = facts.get(dump(n.slice))
+                                if f and f[0] == 'eq':
+                                    hit = [v for k, v in zip(n.value.keys, n.value.values) if repr(k.value) == f[1]]
+                                    if len(hit) == 1 and all(is_pure(v) for v in n.value.values):
+                                        return hit[0]
+                            return n
+                    st = TX().visit(st)
                 if not compound and facts and any(isinstance(x, ast.IfExp) for x in ast.walk(st)):
                     nz = self
 
@@ -823,6 +859,16 @@ class Normalizer:
                         and not isinstance(body[0].value, ast.IfExp) and not isinstance(orelse[0].value, ast.IfExp):
                     ife = ast.IfExp(test=st.test, body=body[0].value, orelse=orelse[0].value)
                     out += self.split_assign(ast.Assign(targets=[body[0].targets[0]], value=ife))
+                elif len(body) == 1 and len(orelse) == 1 and isinstance(body[0], ast.Return) and isinstance(orelse[0], ast.Return) and body[0].value is not None \
+                        and orelse[0].value is not None and is_pure(body[0].value) and is_pure(orelse[0].value) and is_pure(st.test) \
+                        and not isinstance(body[0].value, ast.IfExp) and not isinstance(orelse[0].value, ast.IfExp):
+                    # if c: return a else: return b  ->  return a if c else b
+                    out.append(ast.Return(value=ast.IfExp(test=st.test, body=body[0].value, orelse=orelse[0].value)))
+                    stmts = stmts[:i + 1] + rest
+                    i += 1
+                    break
+                elif self.merge_call_branches(st.test, body, orelse) is not None:
+                    out += self.split_assign(self.merge_call_branches(st.test, body, orelse))
                 elif len(body) == 1 and len(orelse) == 1 and isinstance(body[0], ast.AugAssign) and isinstance(orelse[0], ast.AugAssign) \
                         and type(body[0].op) is type(orelse[0].op) and dump(body[0].target) == dump(orelse[0].target) and dotted(body[0].target) is not None \
                         and is_pure(body[0].value) and is_pure(orelse[0].value) and is_pure(st.test):
@@ -888,6 +934,8 @@ class Normalizer:
                 st.op = ast.Sub()
                 st.value = ast.BinOp(left=st.value.left.operand, op=ast.Mult(), right=st.value.right)
                 out.append(st)
+            elif self.fold_append(out, st):
+                pass
             elif isinstance(st, ast.Expr) and isinstance(st.value, ast.Call) and dotted(st.value.func) == 'setattr' and len(st.value.args) == 3 and not st.value.keywords \
                     and isinstance(st.value.args[1], ast.Constant) and isinstance(st.value.args[1].value, str) and st.value.args[1].value.isidentifier():
                 # setattr(obj, 'name', v) -> obj.name = v
@@ -899,6 +947,56 @@ class Normalizer:
                 out.append(st)
             i += 1
         return out
+
+    def fold_append(self, out, st):
+        """v = [a, b] directly followed by v.append(c) / v.extend([c, d]) / v += [c, d]   ->   v = [a, b, c(, d)]   (pure elements)"""
+        if not out or not (isinstance(out[-1], ast.Assign) and len(out[-1].targets) == 1 and isinstance(out[-1].targets[0], ast.Name) and isinstance(out[-1].value, ast.List)):
+            return False
+        v = out[-1].targets[0].id
+        new = None
+        if isinstance(st, ast.Expr) and isinstance(st.value, ast.Call) and isinstance(st.value.func, ast.Attribute) and isinstance(st.value.func.value, ast.Name) \
+                and st.value.func.value.id == v and not st.value.keywords and len(st.value.args) == 1:
+            if st.value.func.attr == 'append':
+                new = [st.value.args[0]]
+            elif st.value.func.attr == 'extend' and isinstance(st.value.args[0], (ast.List, ast.Tuple)):
+                new = list(st.value.args[0].elts)
+        elif isinstance(st, ast.AugAssign) and isinstance(st.op, ast.Add) and isinstance(st.target, ast.Name) and st.target.id == v and isinstance(st.value, (ast.List, ast.Tuple)):
+            new = list(st.value.elts)
+        if new is None or any(isinstance(e, ast.Starred) or not is_pure(e) or any(isinstance(x, ast.Name) and x.id == v for x in ast.walk(e)) for e in new):
+            return False
+        if any(isinstance(e, ast.Starred) or not is_pure(e) for e in out[-1].value.elts):
+            return False
+        out[-1] = ast.Assign(targets=out[-1].targets, value=ast.List(elts=list(out[-1].value.elts) + new, ctx=ast.Load()))
+        return True
+
+    def merge_call_branches(self, test, body, orelse):
+        """if c: T = F(.., A, ..) else: T = F(.., B, ..)   ->   T = F(.., A if c else B, ..)
+        for an impure F: same callee, same targets, pure arguments that differ in exactly one position, pure test"""
+        if not (len(body) == 1 and len(orelse) == 1 and isinstance(body[0], ast.Assign) and isinstance(orelse[0], ast.Assign)):
+            return None
+        a, b = body[0], orelse[0]
+        if [dump(t) for t in a.targets] != [dump(t) for t in b.targets] or not isinstance(a.value, ast.Call) or not isinstance(b.value, ast.Call):
+            return None
+        ca, cb = a.value, b.value
+        if dump(ca.func) != dump(cb.func) or len(ca.args) != len(cb.args) or [k.arg for k in ca.keywords] != [k.arg for k in cb.keywords] or not is_pure(test):
+            return None
+        if dotted(ca.func) is None or is_pure(ca):
+            return None
+        va = list(ca.args) + [k.value for k in ca.keywords]
+        vb = list(cb.args) + [k.value for k in cb.keywords]
+        if any(isinstance(x, ast.Starred) for x in va + vb) or any(k.arg is None for k in ca.keywords) or not all(is_pure(x) for x in va + vb):
+            return None
+        diff = [i for i, (x, y) in enumerate(zip(va, vb)) if dump(x) != dump(y)]
+        if len(diff) != 1 or any(not all(isinstance(t, ast.Name) for t in ast.walk(tt) if isinstance(t, ast.expr) and not isinstance(t, (ast.Tuple, ast.List))) for tt in a.targets):
+            return None
+        i = diff[0]
+        ife = ast.IfExp(test=test, body=va[i], orelse=vb[i])
+        call = copy.deepcopy(ca)
+        if i < len(ca.args):
+            call.args[i] = ife
+        else:
+            call.keywords[i - len(ca.args)].value = ife
+        return ast.Assign(targets=a.targets, value=call)
 
     def thread_flags(self, stmts):
         """flag = K0; if c: (... flag = K1) else: (...); if flag: A else: B   ->   the second `if` is decided at the end of each branch
@@ -1331,7 +1429,13 @@ class Normalizer:
                         # a value computed by state-preserving calls (np.*, constructors): evaluated once, so it may move to its
                         # single use when that use is executed exactly once per execution of the definition (same loop nest)
                         single_sp = True
-                    if (not is_pure(st.value) and not single_sp) or isinstance(st.value, (ast.ListComp, ast.DictComp, ast.SetComp, ast.GeneratorExp, ast.List, ast.Set)):
+                    star_only = False
+                    if isinstance(st.value, ast.List) and is_pure(st.value) and not any(isinstance(e, ast.Starred) for e in st.value.elts):
+                        # a list that is only ever unpacked into argument lists (f(*v)) has no identity anyone could observe
+                        loads = [n for n in free_names(fn) if n.id == v and isinstance(n.ctx, ast.Load)]
+                        starred = {id(x.value) for c in ast.walk(fn) if isinstance(c, ast.Call) for x in c.args if isinstance(x, ast.Starred)}
+                        star_only = bool(loads) and all(id(n) in starred for n in loads)
+                    if ((not is_pure(st.value) and not single_sp) or isinstance(st.value, (ast.ListComp, ast.DictComp, ast.SetComp, ast.GeneratorExp, ast.List, ast.Set))) and not star_only:
                         continue        # containers have identity: not substituted
                     if isinstance(st.value, ast.Dict) and self.container_mutated_or_escapes(fn, v):
                         continue
@@ -1355,7 +1459,7 @@ class Normalizer:
                         # the use must not sit in a conditionally evaluated position (and/or, conditional expression)
                         if any(isinstance(x, (ast.BoolOp, ast.IfExp)) and any(y is uses[0] for y in ast.walk(x)) for x in ast.walk(fn)):
                             continue
-                    if len(uses) > 1 and not isinstance(st.value, (ast.Name, ast.Constant, ast.Attribute, ast.Dict)) and cost(st.value) > 60:
+                    if len(uses) > 1 and not isinstance(st.value, (ast.Name, ast.Constant, ast.Attribute, ast.Dict)) and cost(st.value) > 60 and not star_only:
                         continue
                     names, attrs = reads(st.value)
                     names.discard(v)
@@ -1396,6 +1500,8 @@ class Normalizer:
                         if state and hdr is not None:
                             for c in ast.walk(hdr if not isinstance(n, ast.For) else n.iter):
                                 if isinstance(c, ast.Call) and not state_preserving_call(c):
+                                    if attrs and not has_sub and self.foreign_method_spares(c, attrs):
+                                        continue
                                     wr = self.call_writes(c)
                                     hit = False
                                     if has_sub or not attrs:
@@ -1448,6 +1554,21 @@ class Normalizer:
                     break
             if not done:
                 break
+
+    def foreign_method_spares(self, c, attrs):
+        """c is obj.method(...) on an object other than self, and by the effect summaries of every analysed class that defines a method
+        of that name none of the attribute names in `attrs` (a.b.c -> b, c) is written by it (transitively, on its own object); its
+        arguments are pure.  Attribute names, not objects, are compared, so aliasing between the objects does not matter."""
+        if not (isinstance(c.func, ast.Attribute) and dotted(c.func.value) not in (None, 'self')):
+            return False
+        cands = self.sigdb.get(('effects_any',), {}).get(c.func.attr)
+        if not cands:
+            return False
+        w = set()
+        for _, _, ww in cands:
+            w |= set(ww)
+        read_attrs = {p_ for a in attrs for p_ in a.split('.')[1:]}
+        return '*' not in w and not (w & read_attrs) and all(is_pure(a) for a in list(c.args) + [k.value for k in c.keywords])
 
     def iter_use_safe(self, cfg, U, D, k, use):
         """the iterable of a for statement is evaluated once, on entry: a statement of the loop's own body that changes what the
@@ -2172,7 +2293,9 @@ class ExprCanon(ast.NodeTransformer):
         if isinstance(it, ast.Call) and dotted(it.func) == 'zip' and not it.keywords and it.args and all(isinstance(a, (ast.Tuple, ast.List)) for a in it.args) \
                 and len({len(a.elts) for a in it.args}) == 1:
             it = ast.Tuple(elts=[ast.Tuple(elts=[a.elts[k] for a in it.args], ctx=ast.Load()) for k in range(len(it.args[0].elts))], ctx=ast.Load())
-        if g.ifs or g.is_async or not isinstance(it, (ast.Tuple, ast.List)) or not (1 <= len(it.elts) <= 8) or any(isinstance(e, ast.Starred) for e in it.elts):
+        if g.ifs or g.is_async or not isinstance(it, (ast.Tuple, ast.List)) or not it.elts or any(isinstance(e, ast.Starred) for e in it.elts):
+            return None
+        if len(it.elts) > 8 and not (len(it.elts) <= 40 and all(isinstance(e, ast.Constant) for e in it.elts) and cost(n.elt) <= 16):
             return None
         out = []
         for e in it.elts:
@@ -2196,6 +2319,23 @@ class ExprCanon(ast.NodeTransformer):
 
     def visit_Attribute(self, n):
         self.generic_visit(n)
+        # (X if c else Y).attr -> X.attr if c else Y.attr
+        if isinstance(n.ctx, ast.Load) and isinstance(n.value, ast.IfExp):
+            e = n.value
+            return self.visit_IfExp(ast.IfExp(test=e.test, body=ast.Attribute(value=e.body, attr=n.attr, ctx=ast.Load()),
+                                              orelse=ast.Attribute(value=e.orelse, attr=n.attr, ctx=ast.Load())))
+        return n
+
+    def visit_Tuple(self, n):
+        self.generic_visit(n)
+        # (p, X if c else Y, X2 if c else Y2, q) -> (p, X, X2, q) if c else (p, Y, Y2, q): every element pure, one test for all conditionals
+        if isinstance(n.ctx, ast.Load):
+            conds = [e for e in n.elts if isinstance(e, ast.IfExp)]
+            if conds and len({dump(e.test) for e in conds}) == 1 and all(is_pure(e) for e in n.elts) and not any(isinstance(e, ast.Starred) for e in n.elts) and cost(n) <= 400:
+                t = conds[0].test
+                a = ast.Tuple(elts=[e.body if isinstance(e, ast.IfExp) else e for e in n.elts], ctx=ast.Load())
+                b = ast.Tuple(elts=[copy.deepcopy(e.orelse) if isinstance(e, ast.IfExp) else copy.deepcopy(e) for e in n.elts], ctx=ast.Load())
+                return self.visit_IfExp(ast.IfExp(test=t, body=a, orelse=b))
         return n
 
     def visit_Subscript(self, n):
